@@ -18,7 +18,10 @@
     (b) what the specification recognises, the REGENERATED grammar of the real parser accepts with the
         same rest ([*_complete]);
     (c) hence the real productions accept every rendering ([parser_accepts_rendered_*]).
-    Not proved: the element / attribute / content rung and the DTD rung of [render_wf] and
+    (d) the element / content rung at the grammar level: [render_node_is_content].
+    Not proved: the well-formedness CONSTRAINTS and namespace constraints on the tree that is read back
+    (element type match holds by construction of the rendering; attribute uniqueness and the namespace
+    checks need the permutation lemmas), the prolog / XML declaration / DTD rung of [render_wf], and
     [parse_render] (named [render_wf_partial], [parse_render_partial] in notes/wf_STATUS.md); they are
     covered by checks/C01.py, which evaluates wf (render d c) and
     infoset_of_string (render d c) = denote d with the extracted functions on every generated case,
@@ -68,6 +71,15 @@ Theorem text_is_character_data : forall c p f i prev s, all_chars s = true -> (l
       XmlWF.bind (p_content fuel T) (fun '(l, r) => Some (items ++ l, r)).
 Proof. exact text_reads_back. Qed.
 
+(** the element / content rung, at the level of the grammar [39]-[44]: every abstract node that passes the
+    lexical conditions of [valid] ([node_ok]), rendered with ANY oracle -- attribute order, quotes, white
+    space, empty-element tag or pair, character data in any mixture of forms, nested to any depth --
+    is read back by [p_content], which then goes on with what follows ([parses] says: for suitable
+    fuel offsets n, m and every fuel and continuation T,
+    p_content (n + fuel) (render_node c p x ++ T) = the items of x, then p_content (m + fuel) T) *)
+Theorem render_node_is_content : forall x, node_ok x = true -> forall c p, parses c p x.
+Proof. exact valid_node_parses. Qed.
+
 (** ** (b) *)
 Theorem comment_complete : forall s r, spec_comment s = Some r -> rest_of (run G_xml R nt_comment s) = Some r.
 Proof. intros s r H. now rewrite comment_language. Qed.
@@ -98,5 +110,6 @@ Print Assumptions char_ref_reads_back.
 Print Assumptions att_literal_is_attvalue.
 Print Assumptions att_value_does_not_depend_on_choices.
 Print Assumptions text_is_character_data.
+Print Assumptions render_node_is_content.
 Print Assumptions parser_accepts_rendered_comment.
 Print Assumptions parser_accepts_rendered_pi.
